@@ -2,4 +2,4 @@ from ._muxprops import make, COMMON_RULE
 
 SPEC = make("C11", "Properties.C11", ['C11_send_dgram_spec', 'C11_recv_dgram_spec', 'C11_get_dgram_fifo'],
             [("pair", "dgram", 0.7), ("pair", "dgram-end-drop", 0.3)],
-            COMMON_RULE + "Emphasis for this property: generator mode(s) dgram.", "DESIGN.md §4 C11")
+            COMMON_RULE + "Emphasis for this property: generator mode(s) dgram.", "DESIGN.md §5 C11")
